@@ -27,14 +27,9 @@ theorem evalCondW_erase (w : World) (t : List Tok) :
   | some e => rfl
   | none =>
     simp only []
-    cases runExpand tbl t with
-    | ok ts =>
-      simp only []
-      cases CbiVerif.Eval.evaluatePP ts with
-      | ok b => rfl
-      | error e => rfl
+    cases condValue tbl t with
+    | ok b => rfl
     | error e => rfl
-    | sig s => rfl
 
 theorem includeStep_erase (fs : FS) (pfs : ParsedFS) (file : String) (w : World) (idx : Nat) (n : PNode) (h : WarnInv fs w) :
     includeStep false fs pfs file w.erase idx n =
